@@ -276,6 +276,21 @@ theorem C20_curry_call_sequential (fn : CurryFn) (c : Curry) (a : List Int) (hcu
   ⟨callSeq_reach fn c a hcur, callSeq_abs fn c a hcur⟩
 example : (Curry.init []).cur = none := rfl
 
+/-- no Call is lost or duplicated by the lock: at any moment the Calls that have taken the lock plus those
+    still to be made are exactly the Calls of the scripts -/
+theorem C20_curry_no_call_lost (fn : CurryFn) (scripts : List (List (List Int))) (c : Curry)
+    (r : CReach fn (Curry.init scripts) c) :
+    c.lockOrder.length + c.pendingCount = (scripts.map List.length).sum := by
+  have := count_reach r
+  simpa [Curry.init, Curry.pendingCount] using this
+
+/-- the whole sequential script run by the driver (`cu` cases) prints exactly what the Spec prints -/
+theorem C20_curry_script (fn : CurryFn) (ts : List String) :
+    runScript (curryTokImpl fn) (Curry.init []) ts = runScript (curryTokSpec fn) Spec.CurryS.init ts := by
+  have h := curry_script_refines fn ts (Curry.init []) [] rfl
+  unfold runScript
+  exact congrArg (fun outs => " | ".intercalate (List.reverse outs)) h
+
 /-- the protocol shape the transition system assumes for `Call` (lock; done-check; append; invoke; store;
     unlock) is the one the extractor finds in fp.go on this run -/
 def expectedCallSkeleton : String :=
